@@ -11,13 +11,69 @@ from .rxnfix import make_reaction, get_public
 PD = 'pmutt.reaction.phasediagram.PhaseDiagram'
 
 
+def new_interp(repo, **kw):
+    """every interpreter of this module: a number that goes through text (formatted with a precision and parsed back
+    with float()) is the number as rounded by that format, not the number that was printed"""
+    I = Interp(repo, **kw)
+    I.track_print_precision = True
+    return I
+
+
+def result_pair(out):
+    """the documented result (GoRT, stable_phases), read the way every caller reads it - through the tuple protocol
+    (`GoRT, stable = pd.get_GoRT_1D(...)`, result[0]): a plain tuple or a named tuple. None: not a pair"""
+    if isinstance(out, Obj) and isinstance(out.attrs.get('__fields__'), ListV):
+        fields = out.attrs['__fields__'].items
+        if not all(f in out.attrs for f in fields):
+            raise Unsupported('named tuple without a value for every field: %r' % (out,))
+        out = ListV([out.attrs[f] for f in fields])
+    if isinstance(out, ListV) and len(out) == 2:
+        return list(out.items)
+    return None
+
+
 def rxn_obj(I, name):
+    """an uninterpreted formation reaction: get_delta_GoRT(rev=False, act=False, **conditions) answers with a symbol
+    that names the reaction and everything it was given (the direction and the final state only when they are not the
+    documented defaults: the forward change between reactants and products is what the diagram tabulates);
+    get_delta_quantity(initial_state, final_state, method_name, **conditions), the documented method behind it, gives
+    the same symbol for ('reactants', 'products', 'get_GoRT')"""
     o = Obj(name)
 
     def dG(I_, obj, args, kwargs):
-        s = ','.join('%s=%s' % (k, sig(kwargs[k])) for k in sorted(kwargs))
+        if len(args) > 2:
+            raise Unsupported('get_delta_GoRT of the uninterpreted reaction with %d positional arguments' % len(args))
+        kw = dict(zip(('rev', 'act'), args))
+        for k in kw:
+            if k in kwargs:
+                raise Unsupported('get_delta_GoRT: %s given twice' % k)
+        kw.update(kwargs)
+        for k in ('rev', 'act'):
+            if k in kw and kw[k] is False:
+                del kw[k]           # the documented default
+            elif k in kw and kw[k] is not True:
+                raise Unsupported('get_delta_GoRT(%s=%r) of the uninterpreted reaction' % (k, kw[k]))
+        s = ','.join('%s=%s' % (k, sig(kw[k])) for k in sorted(kw))
         return I_.D.sym('%s.dGoRT(%s)' % (obj.name, s))
+
+    def dQ(I_, obj, args, kwargs):
+        kw = dict(zip(('initial_state', 'final_state', 'method_name'), args))
+        if len(args) > 3 or any(k in kwargs for k in kw):
+            raise Unsupported('get_delta_quantity of the uninterpreted reaction: arguments')
+        kw.update(kwargs)
+        try:
+            what = (kw.pop('initial_state'), kw.pop('final_state'), kw.pop('method_name'))
+        except KeyError:
+            raise Unsupported('get_delta_quantity of the uninterpreted reaction: arguments')
+        if not all(isinstance(w, str) for w in what) or 'rev' in kw or 'act' in kw:
+            raise Unsupported('get_delta_quantity%r of the uninterpreted reaction' % (what,))
+        if what != ('reactants', 'products', 'get_GoRT'):
+            # another change (other states, another quantity): a quantity of its own
+            return I_.D.sym('%s.delta[%s->%s;%s](%s)' % ((obj.name,) + what + (','.join(
+                '%s=%s' % (k, sig(kw[k])) for k in sorted(kw)),)))
+        return dG(I_, obj, [], kw)
     o.opaque_methods['get_delta_GoRT'] = dG
+    o.opaque_methods['get_delta_quantity'] = dQ
     o.opaque_methods['to_string'] = lambda I_, ob, a, k: ob.name
     return o
 
@@ -69,13 +125,18 @@ def _argext_kind(I):
             I.native[name] = wrap(I.native[name], nan)
 
 
-def make_diagram(I, ci, nr, kind, tag=''):
+def make_diagram(I, ci, nr, kind, tag='', rx=None):
     """PhaseDiagram(reactions, norm_factors) through its constructor; the factors are given as a list, as an array of
-    floats (the documented type) or left out (documented default: ones)"""
+    floats (the documented type) or left out (documented default: ones). rx: the reaction objects (of another diagram;
+    reaction objects are shared between diagrams that normalise the same reactions differently, and one reaction may
+    stand for two phases of one diagram)"""
     D = I.D
     _asarray_model(I)
     _argext_kind(I)
-    rx = [rxn_obj(I, 'rxn%s%d' % (tag, i)) for i in range(nr)]
+    if rx is None:
+        rx = [rxn_obj(I, 'rxn%s%d' % (tag, i)) for i in range(nr)]
+    rx = list(rx)
+    nr = len(rx)
     kw = {'reactions': ListV(rx)}
     given = None
     if kind == 'default':
@@ -85,6 +146,10 @@ def make_diagram(I, ci, nr, kind, tag=''):
         if kind == 'array':
             given.is_array = True
             given.dtype = 'float'
+        elif kind == 'tuple':
+            given.is_tuple = True           # and the reactions as a tuple as well
+            kw['reactions'] = ListV(list(rx))
+            kw['reactions'].is_tuple = True
         vals = list(given.items)
         kw['norm_factors'] = given
     pd = I.construct(ci, [], kw, name='pd' + tag)
@@ -141,6 +206,19 @@ def cond_text(spec):
     return ' fixed=' + ','.join('%s:%s' % (k, spec[k]) for k in sorted(spec)) if spec else ''
 
 
+def gas_constant(D, units):
+    """R in `units` per kelvin: the Boltzmann constant, times Avogadro's number for a molar unit, in the energy unit
+    asked for (U<unit>: that unit per joule)"""
+    molar = units.endswith('/mol')
+    base = units[:-4] if molar else units
+    r = D.sym('kb')
+    if molar:
+        r = r * D.sym('Na')
+    if base != 'J':
+        r = r * D.sym('U<%s>' % base)
+    return r
+
+
 def stable_ok(s_, col):
     """the stable phase at one grid point: the arg-min over the candidates `col` (one per reaction)"""
     if len(col) == 1:
@@ -185,16 +263,16 @@ def scan_1d(run, I, ci, pd, rx, vals, nx, units, xname, label, g='x', fixed=None
     if units is not None or pass_units:         # documented default of G_units: None
         kw['G_units'] = units
     out = I.call_method(pd, 'get_GoRT_1D', [], kw)
-    if not (isinstance(out, ListV) and len(out) == 2):
+    pair = result_pair(out)
+    if pair is None:
         run.fail('REF.table', 'PhaseDiagram.get_GoRT_1D', 'result', '[%s] unexpected result %s'
                  % (label, show(out)), owner.module, fn)
         return
-
-    G, stable = out.items
+    G, stable = pair
 
     def want(i, kw):
         v = rx[i].opaque_methods['get_delta_GoRT'](I, rx[i], [], kw) / vals[i]
-        return v * (D.sym('kb') * D.sym('Na') * D.sym('U<kJ>') * kw['T']) if units else v
+        return v * (gas_constant(D, units) * kw['T']) if units else v
     ok = isinstance(G, ListV) and len(G) == nr and all(
         isinstance(G.items[i], ListV) and len(G.items[i]) == nx and
         all(same(G.items[i].items[j], want(i, dict(given, **{xname: xs.items[j]}))) for j in range(nx))
@@ -236,18 +314,19 @@ def scan_2d(run, I, ci, pd, rx, vals, nx, nx2, n1, n2, units2, label, g='x', h='
     if units2 is not None or pass_units:
         kw_['G_units'] = units2
     out = I.call_method(pd, 'get_GoRT_2D', [], kw_)
-    if not (isinstance(out, ListV) and len(out) == 2):
+    pair = result_pair(out)
+    if pair is None:
         run.fail('REF.table', 'PhaseDiagram.get_GoRT_2D', 'result', '[%s] unexpected result %s'
                  % (label, show(out)), owner.module, fn)
         return
-    G, stable = out.items
+    G, stable = pair
     ok = isinstance(G, ListV) and len(G) == nr
     if ok:
         for i, j, k in itertools.product(range(nr), range(nx), range(nx2)):
             kw = dict(fixed, **{n1: xs.items[j], n2: ys.items[k]})
             w = rx[i].opaque_methods['get_delta_GoRT'](I, rx[i], [], kw) / vals[i]
             if units2:
-                w = w * D.sym('kb') * D.sym('Na') * D.sym('U<kJ>') * kw['T']
+                w = w * gas_constant(D, units2) * kw['T']
             try:
                 ok = ok and same(G.items[i].items[j].items[k], w)
             except (AttributeError, IndexError):
@@ -312,11 +391,12 @@ def rq_text(r):
     return '%s %s units=%s%s' % (r['kind'], ' '.join(r['axes']), r['u'], cond_text(r['fixed'] or {}))
 
 
-def request(run, I, ci, pd, rx, vals, r, pos, base, done, array, nx=2):
+def request(run, I, ci, pd, rx, vals, r, pos, base, done, array, nx=2, key=None):
     g = r['g'] or 'abcdefgh'[pos]
     after = (' after ' + '; '.join(done)) if done else ''
     # a request that repeats an earlier one except for the fixed conditions has a finding key of its own
-    key = ', conditions of this request' if r['fixed'] is not None and done else ''
+    if key is None:
+        key = ', conditions of this request' if r['fixed'] is not None and done else ''
     if r['kind'] == '1D':
         label = '%s request %d: 1D scan=%s units=%s%s%s' % (base, pos + 1, r['axes'][0], r['u'],
                                                              cond_text(r['fixed'] or {}), after)
@@ -337,10 +417,14 @@ def phase_diagrams(run, repo):
     for nr, nx in ((1, 1), (2, 3), (3, 2), (3, 4)):
         # scan variables: the common pressure, the temperature, any further keyword of the reactions (P_B, n) and the
         # conditions of one species (<name>_kwargs with dictionaries as grid values)
-        for units, xname in itertools.product((None, 'kJ/mol'), ('P', 'T', 'P_B', 'O2_kwargs', 'n')):
+        # (units: none, a molar unit, a unit per molecule, joules)
+        for units, xname in itertools.product((None, 'kJ/mol', 'eV', 'J/mol'), ('P', 'T', 'P_B', 'O2_kwargs', 'n')):
             if xname == 'n' and not full and (nr, units) != (2, None):
                 continue
-            I = Interp(repo)
+            if units in ('eV', 'J/mol') and not full and (nr, units, xname) not in ((2, 'eV', 'T'), (3, 'eV', 'P'),
+                                                                                   (2, 'J/mol', 'P')):
+                continue
+            I = new_interp(repo)
             pd, rx, vals, given = make_diagram(I, ci, nr, 'list')
             label = '1D reactions=%d grid=%d units=%s%s' % (nr, nx, units, '' if xname == 'P' else ' scan=' + xname)
             n += 1
@@ -358,10 +442,13 @@ def phase_diagrams(run, repo):
         for nx2, (n1, n2, units2) in itertools.product((1, 2, 3), (('T', 'P', None), ('T', 'P', 'kJ/mol'),
                                                                   ('P', 'T', 'kJ/mol'), ('P', 'P_B', 'kJ/mol'),
                                                                   ('P', 'T', None), ('T', SP, None),
-                                                                  (SP, 'T', 'kJ/mol'), ('n', 'O2_kwargs', 'kJ/mol'))):
+                                                                  (SP, 'T', 'kJ/mol'), ('n', 'O2_kwargs', 'kJ/mol'),
+                                                                  ('T', 'P', 'eV'), ('P', 'T', 'J/mol'))):
             if not full and nx2 != 2 and (is_species_scan(n1) or is_species_scan(n2)):
                 continue        # the species scans on the other grid sizes: thorough tier
-            I = Interp(repo)
+            if not full and units2 in ('eV', 'J/mol') and (nr, nx2) not in ((2, 2), (3, 3)):
+                continue
+            I = new_interp(repo)
             pd, rx, vals, given = make_diagram(I, ci, nr, 'list')
             label = '2D reactions=%d grid=%dx%d x1=%s x2=%s units=%s' % (nr, nx, nx2, n1, n2, units2)
             n += 1
@@ -374,13 +461,15 @@ def phase_diagrams(run, repo):
     # out (ones); scans with and without units, in one and two parameters, in both orders - every answer is decided
     # against the factors the diagram was given and the conditions of the request itself, and the diagram still shows
     # those factors afterwards
-    for nr, kind, (si, seq) in itertools.product((1, 2, 3), ('array', 'default', 'list'), enumerate(SEQS)):
+    for nr, kind, (si, seq) in itertools.product((1, 2, 3), ('array', 'default', 'list', 'tuple'), enumerate(SEQS)):
         if si >= 2 and not full and (nr, kind) not in ((1, 'array'), (2, 'default'), (3, 'list'), (2, 'array')):
             continue
-        I = Interp(repo)
+        if kind == 'tuple' and not full and (nr, si) not in ((2, 0), (3, 1)):
+            continue
+        I = new_interp(repo)
         pd, rx, vals, given = make_diagram(I, ci, nr, kind)
-        base = 'reactions=%d factors=%s' % (nr, {'array': 'array of floats', 'default': 'not given',
-                                                   'list': 'list'}[kind])
+        base = 'reactions=%d factors=%s' % (nr, {'array': 'array of floats', 'default': 'not given', 'list': 'list',
+                                                   'tuple': 'tuple (reactions: tuple)'}[kind])
         n += 1
         if not isinstance(pd, Obj):
             owner, fn = repo.find_method(ci, '__init__')
@@ -404,7 +493,7 @@ def phase_diagrams(run, repo):
     for nr, (kind_a, kind_b) in itertools.product((1, 2, 3), (('list', 'array'), ('default', 'list'))):
         if not full and (nr + (kind_a == 'list')) % 2:
             continue
-        I = Interp(repo)
+        I = new_interp(repo)
         nr_b = nr % 3 + 1
         pds = (make_diagram(I, ci, nr, kind_a), make_diagram(I, ci, nr_b, kind_b, tag='B'))
         n += 1
@@ -421,6 +510,73 @@ def phase_diagrams(run, repo):
                 factors_kept(run, I, ci, pd_, vals_, given_, base, 'the %s diagram after request %d (%s)'
                              % (('first', 'second')[wh], pos + 1, done[-1]))
             n += 1
+    # diagrams over the SAME reaction objects (the same formation reactions normalised per formula unit by one diagram
+    # and per metal atom by the next), and a diagram in which one reaction object stands for two phases with two
+    # factors: the factors belong to the diagram - what a later diagram is given does not change the answers of an
+    # earlier one (asked before and after the later ones are built and asked), and the two phases of one reaction are
+    # divided by their own factors
+    ordinal = ('first', 'second', 'third')
+    shared = ((0, rq('1D', 'T', fixed={'P': 'p1'}, g='a')), (1, rq('1D', 'T', fixed={'P': 'p1'}, g='a')),
+              (2, rq('1D', 'T', u='eV', fixed={'P': 'p1'}, g='a')),
+              (0, rq('2D', 'T', 'P', u='kJ/mol', fixed={}, g='c')), (1, rq('2D', 'T', 'P', u='kJ/mol', fixed={}, g='c')),
+              (2, rq('2D', 'P', 'T', fixed={}, g='d')), (1, rq('1D', 'P', u='kJ/mol', fixed={'T': 'T1'}, g='b')),
+              (0, rq('1D', 'T', fixed={'P': 'p1'}, g='a')))
+    for nr, (kind_a, kind_b) in itertools.product((2, 3), (('list', 'array'), ('default', 'list'),
+                                                           ('array', 'default'))):
+        if not full and (nr, kind_a) not in ((2, 'list'), (3, 'default'), (2, 'array')):
+            continue
+        I = new_interp(repo)
+        first = make_diagram(I, ci, nr, kind_a)
+        pds = [first]
+        n += 1
+        if isinstance(first[0], Obj):
+            # the first diagram is asked once before the others exist
+            base = 'diagrams sharing their reaction objects (reactions=%d factors=%s), the first one before the ' \
+                'others are built' % (nr, kind_a)
+            request(run, I, ci, first[0], first[1], first[2], rq('1D', 'T', fixed={'P': 'p0'}, g='z'), 0, base, [],
+                    array=False, key=', diagrams sharing reaction objects')
+        pds.append(make_diagram(I, ci, nr, kind_b, tag='B', rx=first[1]))
+        pds.append(make_diagram(I, ci, nr + 1, 'list', tag='C', rx=[first[1][0]] + first[1]))
+        if not all(isinstance(p[0], Obj) for p in pds):
+            continue            # reported above
+        done = []
+        for pos, (which, r) in enumerate(shared):
+            pd, rx, vals, given = pds[which]
+            base = 'diagrams sharing their reaction objects (reactions=%d factors=%s; the same reactions, factors=%s; ' \
+                'the first reaction twice and the others, own factors), the %s one' % (nr, kind_a, kind_b,
+                                                                                     ordinal[which])
+            request(run, I, ci, pd, rx, vals, r, pos, base, done, array=False,
+                    key=', diagrams sharing reaction objects')
+            done[-1] = '%s diagram: %s' % (ordinal[which], done[-1])
+            for wh, (pd_, rx_, vals_, given_) in enumerate(pds):
+                factors_kept(run, I, ci, pd_, vals_, given_, base, 'the %s diagram after request %d (%s)'
+                             % (ordinal[wh], pos + 1, done[-1]))
+            n += 1
+    # grids of more than ten values (the property: 1-30 values, 1-8 reactions): whatever goes by the decimal spelling
+    # of a grid index - labels, keys that are sorted as text - changes at index 10
+    long_1d = [(2, 11, 'T', 'kJ/mol', False), (2, 12, 'P', None, True), (2, 11, 'O2_kwargs', 'eV', False)]
+    long_2d = [(2, 11, 2, 'T', 'P', 'kJ/mol'), (2, 2, 11, 'P', 'T', None)]
+    if full:
+        long_1d += [(8, 30, 'T', None, True), (8, 30, 'P', 'kJ/mol', False), (1, 30, 'P_B', 'kJ/mol', True),
+                    (3, 21, 'n', None, False), (2, 30, SP, 'kJ/mol', False), (2, 10, 'T', None, False)]
+        long_2d += [(2, 30, 30, 'T', 'P', None), (8, 12, 11, 'P', SP, 'kJ/mol'), (1, 11, 11, SP, 'T', None)]
+    for nr, nx, xname, units, array in long_1d:
+        I = new_interp(repo)
+        pd, rx, vals, given = make_diagram(I, ci, nr, 'list')
+        label = '1D reactions=%d grid=%d units=%s scan=%s' % (nr, nx, units, xname)
+        n += 1
+        if not isinstance(pd, Obj):
+            continue            # reported above
+        scan_1d(run, I, ci, pd, rx, vals, nx, units, xname, label, array=array, key=', grid of ten and more values')
+        factors_kept(run, I, ci, pd, vals, given, label, 'after the scan')
+    for nr, nx, nx2, n1, n2, units2 in long_2d:
+        I = new_interp(repo)
+        pd, rx, vals, given = make_diagram(I, ci, nr, 'list')
+        label = '2D reactions=%d grid=%dx%d x1=%s x2=%s units=%s' % (nr, nx, nx2, n1, n2, units2)
+        n += 1
+        if not isinstance(pd, Obj):
+            continue
+        scan_2d(run, I, ci, pd, rx, vals, nx, nx2, n1, n2, units2, label, key=', grid of ten and more values')
     return n
 
 
@@ -463,6 +619,23 @@ def extremes_at(nstates, imax, imin):
     return tuple(perm)
 
 
+def span_step(name, ts):
+    """an uninterpreted step of a sequence: its state energies are named by the state and by everything asked for"""
+    r = Obj(name)
+    r.attrs['reactants'] = 'R'
+    r.attrs['products'] = 'P'
+    r.attrs['transition_state'] = 'T' if ts else None
+
+    def G(I_, obj, args, kwargs):
+        kw = dict(zip(('state', 'units', 'T'), args), **kwargs)
+        state = kw.pop('state', None)
+        units_ = kw.pop('units', None)
+        return I_.D.sym('%s.G[%s;units=%s;%s]' % (obj.name, state, units_, ','.join(
+            '%s=%s' % (k, sig(kw[k])) for k in sorted(kw))))
+    r.opaque_methods['get_G_state'] = G
+    return r
+
+
 def e_span(run, repo, max_states):
     n = 0
     ci = repo.cls('pmutt.reaction.Reactions')
@@ -471,8 +644,9 @@ def e_span(run, repo, max_states):
     # sequences of 1-3 steps, with and without transition states: every ordering of the state energies; longer
     # sequences (up to the 8 steps of the property): every pair of positions of the highest and the lowest state
     thorough = max_states > 6
+    # (11 and more states: what goes by the decimal spelling of a state's position changes at position 10)
     shapes = [(True,), (False,), (False, False), (True, False), (False, True), (True, True), (False, False, False),
-              (False, False, True), (False, True, True, False)]
+              (False, False, True), (False, True, True, False), (True, True, False, True)]
     if thorough:
         shapes += [(True, False, False, True, False, True), (True,) * 8, (False,) * 8]
     for shape in shapes:
@@ -486,7 +660,8 @@ def e_span(run, repo, max_states):
                 perms = [extremes_at(nstates, a, b) for a in range(nstates) for b in range(nstates) if a != b] + \
                     perms[::29]
         elif len(shape) > 3:
-            perms = [extremes_at(nstates, a, b) for a in range(nstates) for b in range(nstates) if a != b]
+            perms = [extremes_at(nstates, a, b) for a in range(nstates) for b in range(nstates) if a != b and (
+                thorough or nstates <= 10 or max(a, b) >= 10 or (a + 2 * b) % 11 == 0)]
         else:
             continue
         for pi, perm in enumerate(perms):
@@ -498,24 +673,10 @@ def e_span(run, repo, max_states):
                 # a state energy taken under other conditions than the ones asked for has the place of that state in
                 # the ordering (a witness in which the conditions shift all states alike), so that a lost condition
                 # is seen in the value of the span and not as an undecidable comparison
-                I = Interp(repo, order=RankOrder(ranks, fallback=lambda a, ranks=ranks: next(
+                I = new_interp(repo, order=RankOrder(ranks, fallback=lambda a, ranks=ranks: next(
                     (rk for nm, rk in ranks.items() if a.split(';')[0] == nm.split(';')[0]), None)))
                 D = I.D
-                rxns = []
-                for si, ts in enumerate(shape):
-                    r = Obj('step%d' % si)
-                    r.attrs['reactants'] = 'R'
-                    r.attrs['products'] = 'P'
-                    r.attrs['transition_state'] = 'T' if ts else None
-
-                    def G(I_, obj, args, kwargs):
-                        kw = dict(zip(('state', 'units', 'T'), args), **kwargs)
-                        state = kw.pop('state', None)
-                        units_ = kw.pop('units', None)
-                        return I_.D.sym('%s.G[%s;units=%s;%s]' % (obj.name, state, units_, ','.join(
-                            '%s=%s' % (k, sig(kw[k])) for k in sorted(kw))))
-                    r.opaque_methods['get_G_state'] = G
-                    rxns.append(r)
+                rxns = [span_step('step%d' % si, ts) for si, ts in enumerate(shape)]
                 seq = I.construct(ci, [], {'reactions': ListV(rxns)}, name='seq')
                 if not isinstance(seq, Obj):
                     run.fail('REF.span', 'Reactions.__init__', 'result', 'the sequence is not built: %s'
@@ -560,19 +721,64 @@ def e_span(run, repo, max_states):
                               owner.module, fn,
                               sample='steps=%s ordering=%s -> %s' % (shape, pm, show(want, 100))
                               if n % 97 == 0 else None)
+    # two sequences over the SAME step objects (a full cycle and a part of it in another order), asked in turn under
+    # the same conditions: what a sequence knows about its steps is its own
+    tss = (True, False, True)
+    per_step = [['step%d.%s' % (si, st) for st in ('reactants',) + (('transition_state',) if ts else ()) +
+                 ('products',)] for si, ts in enumerate(tss)]
+    total = sum(len(p_) for p_ in per_step)
+    pairs = [(a, b) for a in range(total) for b in range(total) if a != b]
+    for pi, (a, b) in enumerate(pairs if thorough else pairs[::4]):
+        perm = extremes_at(total, a, b)
+        place = dict(zip([x for p_ in per_step for x in p_], perm))
+        ranks = {}
+        I = new_interp(repo, order=RankOrder(ranks))
+        D = I.D
+        steps = [span_step('step%d' % si, ts) for si, ts in enumerate(tss)]
+        orders = ((0, 1, 2), (2, 0), (0, 1, 2))
+        seqs = [I.construct(ci, [], {'reactions': ListV([steps[k] for k in orders[0]])}, name='seqA'),
+                I.construct(ci, [], {'reactions': ListV([steps[k] for k in orders[1]])}, name='seqB')]
+        seqs.append(seqs[0])
+        if not all(isinstance(q, Obj) for q in seqs):
+            continue            # reported above
+        units = ('kJ/mol', 'eV')[pi % 2]
+        conds = {'T': D.sym('T')}
+        for call, (seq, order) in enumerate(zip(seqs, orders)):
+            labels = [x for k in order for x in per_step[k]]
+            names = ['%s.G[%s;units=%s;T=%s]' % (x.split('.')[0], x.split('.')[1], units, sig(conds['T']))
+                     for x in labels]
+            pm = [place[x] for x in labels]
+            ranks.update(zip(names, pm))
+            got = I.call_method(seq, 'get_E_span', [], dict({'units': units}, **conds))
+            imax = max(range(len(pm)), key=lambda i: pm[i])
+            imin = min(range(len(pm)), key=lambda i: pm[i])
+            want = D.sym(names[imax]) - D.sym(names[imin])
+            if imax < imin:
+                want = want + D.sym(names[-1]) - D.sym(names[0])
+            n += 1
+            run.check(isinstance(got, Rat) and got.eq(want), 'REF.span', 'Reactions.get_E_span',
+                      'span, sequences sharing step objects',
+                      '[two sequences over the same step objects (transition states: %s): steps %s, then steps %s, '
+                      'then the first again; request %d, steps %s, ordering of its states=%s units=%s] span is %s, '
+                      'expected highest minus lowest%s of the state energies of the steps of THIS sequence in its own '
+                      'order' % (tss, orders[0], orders[1], call + 1, order, tuple(pm), units, show(got, 160),
+                                 ' plus the overall reaction energy' if imax < imin else ''), owner.module, fn)
     # Network.get_E_span (own copy)
     m = repo.module('pmutt.reaction.network')
-    nci = m.classes.get('Network')
-    if nci is None or 'get_E_span' not in nci.methods:
-        raise AnchorError('Network.get_E_span not found')
-    fn2 = nci.methods['get_E_span']
-    run.fn('pmutt.reaction.network.Network.get_E_span')
-    for ns in (2, 3, 4):
-        for perm in itertools.permutations(range(ns)):
-            for units in (None, 'kJ/mol'):
+    nci = repo.cls('pmutt.reaction.network.Network')
+    owner2, fn2 = repo.find_method(nci, 'get_E_span')
+    run.fn(owner2.qual + '.get_E_span')
+    # paths of 2-4 states: every ordering; a path of 11 states (position 10 is the first with two digits): pairs of
+    # positions of the highest and the lowest state
+    long_pairs = [(a, b) for a in range(11) for b in range(11) if a != b and (
+        thorough or max(a, b) >= 10 or (a + 2 * b) % 11 == 0)]
+    for ns in (2, 3, 4, 11):
+        for pi, perm in enumerate(itertools.permutations(range(ns)) if ns <= 4 else
+                                  [extremes_at(ns, a, b) for a, b in long_pairs]):
+            for units in (None, 'kJ/mol') if ns <= 4 or thorough else ((None, 'kJ/mol')[pi % 2],):
                 ranks = {}
                 base = {}
-                I = Interp(repo, order=RankOrder(ranks, fallback=lambda a, base=base: base.get(a.split('.')[0])))
+                I = new_interp(repo, order=RankOrder(ranks, fallback=lambda a, base=base: base.get(a.split('.')[0])))
                 D = I.D
                 nodes = DictV()
                 for k in range(ns):
@@ -603,7 +809,7 @@ def e_span(run, repo, max_states):
                               'lowest%s of the state energies in the unit and at the temperature asked for'
                               % (ns, pm, un, show(T_), '' if call == 0 else ', after a request with units=%s at T'
                                  % (units,), show(got, 160), ' plus last minus first' if imax < imin else ''),
-                              m, fn2)
+                              owner2.module, fn2)
     # the network built by the real constructor: every state node carries its own species and coefficients, and the
     # span over a path through a step with a transition state uses them (a coefficient taken from another state of
     # the same step changes the energies the span is computed from)
@@ -617,7 +823,7 @@ def e_span(run, repo, max_states):
     for units in (None, 'kJ/mol'):
         for oi, (order_name, vals) in enumerate(orderings):
             ranks = {}
-            I = Interp(repo, order=RankOrder(ranks, const_ranks=True, witness=True,
+            I = new_interp(repo, order=RankOrder(ranks, const_ranks=True, witness=True,
                                              fallback=lambda a, vals=vals: vals.get(a.split('.')[0])))
             D = I.D
             sp = {}
@@ -664,7 +870,7 @@ def e_span(run, repo, max_states):
         for order_name, base in (('pair state highest', {'A': 2, 'X': 10, 'Y': 20, 'B': 1}),
                                  ('pair state lowest', {'A': 50, 'X': 2, 'Y': 4, 'B': 60})):
             ranks = {}
-            I = Interp(repo, order=RankOrder(ranks, const_ranks=True, witness=True,
+            I = new_interp(repo, order=RankOrder(ranks, const_ranks=True, witness=True,
                                              fallback=lambda a, base=base: base.get(a.split('.')[0])))
             D = I.D
             pX, pY = D.sym('pX'), D.sym('pY')
@@ -721,10 +927,18 @@ def check(run, repo):
         'the fixed conditions or leave a condition out; G_units passed and left to its documented default), two '
         'diagrams are asked in turn inside one program, and every answer, as well as the factors each diagram shows '
         'afterwards, is decided against the factors given and the conditions of the request itself; the grids and '
-        'condition dictionaries handed in are left alone. Reactions.get_E_span and Network.get_E_span are interpreted under an '
+        'condition dictionaries handed in are left alone. Diagrams that share their reaction objects (the same '
+        'reactions under other factors; one reaction standing for two phases) are asked in turn, the first one before '
+        'and after the others are built; grids of 11-12 values (thorough: up to 30 values, 8 reactions) are scanned in '
+        'one and two parameters; units are a molar unit, a unit per molecule (eV) and joules, the reference being '
+        'kb (times Na for molar units) in the unit asked for; the result is read through the tuple protocol (a plain '
+        'or a named tuple); a number that is formatted with a precision and parsed back is the rounded number, not '
+        'the tabulated one. Reactions.get_E_span and Network.get_E_span are interpreted under an '
         'ordering oracle for every ordering of the state energies (sequences of 1-3 steps with and without transition '
         'states; longer sequences up to 8 steps for every pair of positions of the highest and the lowest state; a '
-        'sequence asked twice; paths of 2-4 states; states of several species with equal and unequal coefficients): the span is highest minus lowest plus last minus first iff the highest state '
+        'sequence asked twice; a sequence of 11 states and a path of 11 states with the extremes at and around '
+        'position 10; two sequences over the same step objects asked in turn; paths of 2-4 states; states of '
+        'several species with equal and unequal coefficients): the span is highest minus lowest plus last minus first iff the highest state '
         'comes before the lowest, of the state energies in the unit and under all the conditions asked for '
         '(temperature, pressure, per-species conditions; the uninterpreted energies are named by everything they '
         'are given); every network is asked a second time in the other unit, at another temperature and with the '
@@ -744,6 +958,27 @@ def check(run, repo):
 P_ = 'pmutt/reaction/phasediagram.py'
 R_ = 'pmutt/reaction/__init__.py'
 N_ = 'pmutt/reaction/network.py'
+LOOP_1D = ('        for i, (reaction, norm_factor) in enumerate(\n'
+           '                zip(self.reactions, self.norm_factors)):\n'
+           '            for j, x in enumerate(x_values):\n'
+           '                kwargs[x_name] = x\n'
+           '                GoRT[i, j] = reaction.get_delta_GoRT(**kwargs) / norm_factor\n'
+           '\n'
+           '                # Add unit corrections\n'
+           '                if G_units is not None:\n'
+           "                    GoRT[i, j] *= c.R('{}/K'.format(G_units)) * kwargs['T']\n")
+ZEROS_1D = '        GoRT = np.zeros(shape=(len(self.reactions), len(x_values)))\n'
+UNIT_1D = "                    GoRT[i, j] *= c.R('{}/K'.format(G_units)) * kwargs['T']\n"
+UNIT_2D = ("                        GoRT[i, j, k] *= c.R('{}/K'.format(G_units)) *\\\n"
+           "                                             kwargs['T']\n")
+INIT_TAIL = '        else:\n            self.norm_factors = norm_factors\n'
+SPAN_R = ('        states_G = []\n        for reaction in self.reactions:\n            for state in states:\n'
+          '                # Skip states that are not occupied\n'
+          '                if getattr(reaction, state) is None:\n'
+          '                    continue\n'
+          '                states_G.append(\n'
+          '                    reaction.get_G_state(state=state, units=units, **kwargs))\n')
+
 MUTANTS = [
     {'name': '2D arg-min over the second grid axis', 'expect': ('AXIS.argmin', 'get_GoRT_2D'),
      'edits': [(P_, '            stable_phases[i, :] = np.nanargmin(GoRT_row, axis=1)', '            stable_phases[i, :] = np.nanargmin(GoRT_row.transpose((1, 0)), axis=1)')]},
@@ -916,6 +1151,91 @@ MUTANTS = [
      'edits': [(P_, '                kwargs[x_name] = x\n                GoRT[i, j] = reaction',
                 "                if isinstance(x, dict):\n                    x.setdefault('T', kwargs.get('T'))\n"
                 '                kwargs[x_name] = x\n                GoRT[i, j] = reaction')]},
+    # ---- white-box round 3 ----
+    # tabulated energies sent through text with four significant digits (ties near phase boundaries)
+    {'name': '1D entries trimmed to four digits through text', 'expect': ('REF.table', 'get_GoRT_1D'),
+     'edits': [(P_, UNIT_1D, UNIT_1D + "                GoRT[i, j] = float('{:.4g}'.format(GoRT[i, j]))\n")]},
+    {'name': '2D entries trimmed to six digits through an f-string', 'expect': ('REF.table', 'get_GoRT_2D'),
+     'edits': [(P_, UNIT_2D, UNIT_2D + "                    GoRT[i, j, k] = float(f'{GoRT[i, j, k]:.6g}')\n")]},
+    # the factor of a phase kept on its reaction object: a later diagram over the same reactions overwrites it
+    {'name': 'factor of each phase stored on its reaction object', 'expect': ('REF.table', 'get_GoRT_1D'),
+     'edits': [(P_, INIT_TAIL, INIT_TAIL +
+                '        for reaction, norm_factor in zip(self.reactions, self.norm_factors):\n'
+                '            reaction.norm_factor = norm_factor\n'),
+               (P_, '                GoRT[i, j] = reaction.get_delta_GoRT(**kwargs) / norm_factor\n',
+                '                GoRT[i, j] = reaction.get_delta_GoRT(**kwargs) / reaction.norm_factor\n')]},
+    # the factor looked up by the reaction: the first of two phases that share a reaction object answers for both
+    {'name': '2D factor looked up by the position of the reaction in the list', 'expect': ('REF.table', 'get_GoRT_2D'),
+     'edits': [(P_, '                    GoRT[i, j, k] = \\\n                        reaction.get_delta_GoRT(**kwargs)/norm_factor\n',
+                '                    norm_factor = self.norm_factors[self.reactions.index(reaction)]\n'
+                '                    GoRT[i, j, k] = \\\n                        reaction.get_delta_GoRT(**kwargs)/norm_factor\n')]},
+    # columns kept under text labels and assembled in the sorted order of the labels ('T[10]' < 'T[2]')
+    {'name': '1D columns assembled in the sorted order of their text labels', 'expect': ('REF.table', 'get_GoRT_1D'),
+     'edits': [(P_, LOOP_1D,
+                '        columns = {}\n'
+                '        for j, x in enumerate(x_values):\n'
+                '            kwargs[x_name] = x\n'
+                '            column = [reaction.get_delta_GoRT(**kwargs) / norm_factor\n'
+                '                      for reaction, norm_factor in zip(self.reactions, self.norm_factors)]\n'
+                '            if G_units is not None:\n'
+                "                RT = c.R('{}/K'.format(G_units)) * kwargs['T']\n"
+                '                column = [G * RT for G in column]\n'
+                "            columns['{}[{}]'.format(x_name, j)] = column\n"
+                '        GoRT = np.array([columns[label] for label in sorted(columns)]).T\n'),
+               (P_, ZEROS_1D, '')]},
+    {'name': '2D stable phases assembled in the sorted order of text labels', 'expect': ('AXIS.argmin', 'get_GoRT_2D'),
+     'edits': [(P_, '        stable_phases = np.zeros((len(x1_values), len(x2_values)))\n'
+                '        for i, GoRT_row in enumerate(GoRT_T):\n'
+                '            stable_phases[i, :] = np.nanargmin(GoRT_row, axis=1)\n',
+                '        rows = {}\n'
+                '        for i, GoRT_row in enumerate(GoRT_T):\n'
+                "            rows['{}[{}]'.format(x1_name, i)] = np.nanargmin(GoRT_row, axis=1)\n"
+                '        stable_phases = np.array([rows[label] for label in sorted(rows)], dtype=float)\n')]},
+    # state energies kept under the text of their position
+    {'name': 'sequence span: state energies assembled in the sorted order of text labels',
+     'expect': ('REF.span', 'Reactions.get_E_span'),
+     'edits': [(R_, SPAN_R,
+                '        by_label = {}\n        for reaction in self.reactions:\n            for state in states:\n'
+                '                # Skip states that are not occupied\n'
+                '                if getattr(reaction, state) is None:\n'
+                '                    continue\n'
+                "                by_label['state {}'.format(len(by_label))] = \\\n"
+                '                    reaction.get_G_state(state=state, units=units, **kwargs)\n'
+                '        states_G = [by_label[label] for label in sorted(by_label)]\n')]},
+    {'name': 'network span: state energies assembled in the sorted order of text labels',
+     'expect': ('REF.span', 'Network.get_E_span'),
+     'edits': [(N_, '        # Get indices for TDI and TDTS\n',
+                "        by_label = {'{}'.format(i): G_i for i, G_i in enumerate(G)}\n"
+                '        G = [by_label[label] for label in sorted(by_label)]\n'
+                '        # Get indices for TDI and TDTS\n')]},
+    # the place of a step in its sequence written on the step object: a second sequence over the same steps renumbers
+    {'name': 'sequence numbers its steps on the step objects', 'expect': ('REF.span', 'Reactions.get_E_span'),
+     'edits': [(R_, '    def __init__(self, reactions):\n        self.reactions = list(reactions)\n',
+                '    def __init__(self, reactions):\n        self.reactions = list(reactions)\n'
+                '        for i, reaction in enumerate(self.reactions):\n            reaction.step = i\n'),
+               (R_, '        states_G = []\n        for reaction in self.reactions:\n            for state in states:\n'
+                '                # Skip states that are not occupied\n',
+                '        states_G = []\n        for reaction in sorted(self.reactions, key=lambda r: r.step):\n'
+                '            for state in states:\n'
+                '                # Skip states that are not occupied\n')]},
+    # the unit asked for never reaches the gas constant (right for kJ/mol only)
+    {'name': '1D unit correction with the gas constant in kJ/mol whatever the unit', 'expect': ('REF.table', 'get_GoRT_1D'),
+     'edits': [(P_, UNIT_1D, "                    GoRT[i, j] *= c.R('kJ/mol/K') * kwargs['T']\n")]},
+    {'name': '2D unit correction with the gas constant in J/mol whatever the unit', 'expect': ('REF.table', 'get_GoRT_2D'),
+     'edits': [(P_, UNIT_2D, "                        GoRT[i, j, k] *= c.R('J/mol/K') * kwargs['T']\n")]},
+    # flat list in reaction-major order shaped with order='F' (which wants it grid-major)
+    {'name': '1D reaction-major flat list reshaped in Fortran order', 'expect': ('REF.table', 'get_GoRT_1D'),
+     'edits': [(P_, LOOP_1D,
+                '        values = []\n'
+                '        for reaction, norm_factor in zip(self.reactions, self.norm_factors):\n'
+                '            for x in x_values:\n'
+                '                kwargs[x_name] = x\n'
+                '                G = reaction.get_delta_GoRT(**kwargs) / norm_factor\n'
+                '                if G_units is not None:\n'
+                "                    G *= c.R('{}/K'.format(G_units)) * kwargs['T']\n"
+                '                values.append(G)\n'
+                "        GoRT = np.array(values, dtype=float).reshape((len(self.reactions), len(x_values)), order='F')\n"),
+               (P_, ZEROS_1D, '')]},
 ]
 EQUIV = [
     # the harmless twins of two mutants above: R folded into a COPY of the factors; T named in the signature and handed
@@ -996,4 +1316,70 @@ EQUIV = [
                 '        stable_phases = np.zeros(len(x_values), dtype=np.intp)\n'
                 '        for j in range(len(x_values)):\n'
                 '            stable_phases[j] = np.nanargmin(GoRT[:, j])\n')]},
+    # ---- white-box round 3 ----
+    {'name': 'result as a named tuple',
+     'edits': [(P_, 'class PhaseDiagram(Reactions):\n',
+                "from collections import namedtuple\nPhaseTable = namedtuple('PhaseTable', ['GoRT', 'stable_phases'])"
+                '\n\n\nclass PhaseDiagram(Reactions):\n'),
+               (P_, '        return (GoRT, stable_phases)\n', '        return PhaseTable(GoRT, stable_phases)\n'),
+               (P_, '        return GoRT, stable_phases\n', '        return PhaseTable(GoRT, stable_phases)\n')]},
+    # the harmless twins of this round's mutants
+    {'name': 'factor of each phase looked up by the position of the phase',
+     'edits': [(P_, '                GoRT[i, j] = reaction.get_delta_GoRT(**kwargs) / norm_factor\n',
+                '                GoRT[i, j] = reaction.get_delta_GoRT(**kwargs) / self.norm_factors[i]\n')]},
+    {'name': '1D columns kept under their integer position and assembled in sorted order',
+     'edits': [(P_, LOOP_1D,
+                '        columns = {}\n'
+                '        for j, x in enumerate(x_values):\n'
+                '            kwargs[x_name] = x\n'
+                '            column = [reaction.get_delta_GoRT(**kwargs) / norm_factor\n'
+                '                      for reaction, norm_factor in zip(self.reactions, self.norm_factors)]\n'
+                '            if G_units is not None:\n'
+                "                RT = c.R('{}/K'.format(G_units)) * kwargs['T']\n"
+                '                column = [G * RT for G in column]\n'
+                '            columns[j] = column\n'
+                '        GoRT = np.array([columns[j] for j in sorted(columns)]).T\n'),
+               (P_, ZEROS_1D, '')]},
+    {'name': '1D columns under zero-padded text labels assembled in sorted order',
+     'edits': [(P_, LOOP_1D,
+                '        columns = {}\n'
+                '        for j, x in enumerate(x_values):\n'
+                '            kwargs[x_name] = x\n'
+                '            column = [reaction.get_delta_GoRT(**kwargs) / norm_factor\n'
+                '                      for reaction, norm_factor in zip(self.reactions, self.norm_factors)]\n'
+                '            if G_units is not None:\n'
+                "                RT = c.R('{}/K'.format(G_units)) * kwargs['T']\n"
+                '                column = [G * RT for G in column]\n'
+                "            columns['{}[{:04d}]'.format(x_name, j)] = column\n"
+                '        GoRT = np.array([columns[label] for label in sorted(columns)]).T\n'),
+               (P_, ZEROS_1D, '')]},
+    {'name': 'sequence span: steps sorted by their position in THIS sequence',
+     'edits': [(R_, '        states_G = []\n        for reaction in self.reactions:\n            for state in states:\n'
+                '                # Skip states that are not occupied\n',
+                '        states_G = []\n        for reaction in sorted(self.reactions, key=self.reactions.index):\n'
+                '            for state in states:\n'
+                '                # Skip states that are not occupied\n')]},
+    {'name': 'network span: state energies under their integer position, assembled in sorted order',
+     'edits': [(N_, '        # Get indices for TDI and TDTS\n',
+                '        by_pos = {i: G_i for i, G_i in enumerate(G)}\n'
+                '        G = [by_pos[i] for i in sorted(by_pos)]\n'
+                '        # Get indices for TDI and TDTS\n')]},
+    # interpreter-dependent refactorings of the review (B2-B5)
+    {'name': '1D grid-major flat list reshaped in Fortran order',
+     'edits': [(P_, LOOP_1D,
+                '        values = []\n'
+                '        for x in x_values:\n'
+                '            kwargs[x_name] = x\n'
+                '            for reaction, norm_factor in zip(self.reactions, self.norm_factors):\n'
+                '                G = reaction.get_delta_GoRT(**kwargs) / norm_factor\n'
+                '                if G_units is not None:\n'
+                "                    G *= c.R('{}/K'.format(G_units)) * kwargs['T']\n"
+                '                values.append(G)\n'
+                "        GoRT = np.array(values, dtype=float).reshape((len(self.reactions), len(x_values)), order='F')\n"),
+               (P_, ZEROS_1D, '')]},
+    {'name': 'network span: lowest and highest state by stable sorts',
+     'edits': [(N_, '        min_i = np.argmin(G)\n        max_i = np.argmax(G)\n',
+                '        by_energy = lambda i: G[i]\n'
+                '        min_i = sorted(range(len(G)), key=by_energy)[0]\n'
+                '        max_i = sorted(range(len(G)), key=by_energy, reverse=True)[0]\n')]},
 ]
